@@ -495,6 +495,9 @@ func (a *allowerContext) createEventAllowed(event PDU) error {
 		return nil
 	}
 
+	if sender == nil {
+		return errorf("userID not found for sender %q in room %q", event.SenderID(), event.RoomID().String())
+	}
 	if err = verImpl.CheckCreateEvent(event, *sender, KnownRoomVersion); err != nil {
 		return err
 	}
